@@ -209,12 +209,44 @@ func c17R9(p *core.Prog, r *core.Report) {
 					return false
 				}
 				cal := core.Callee(cc)
-				if cal == nil || cal.Name() != "Close" || !core.IsModNamed(core.CallArg(cc, 0).Type(), "internal/reghttp", "Resp") {
+				if cal == nil {
 					return false
 				}
-				for _, oc := range originCalls(core.CallArg(cc, 0)) {
-					if oc == do {
-						return true
+				fromDo := func(v ssa.Value) bool {
+					if v == nil || !core.IsModNamed(v.Type(), "internal/reghttp", "Resp") {
+						return false
+					}
+					for _, oc := range originCalls(v) {
+						if oc == do {
+							return true
+						}
+					}
+					return false
+				}
+				if cal.Name() == "Close" {
+					return fromDo(core.CallArg(cc, 0))
+				}
+				// a helper that is handed the response and closes it
+				if h := core.CalleeFn(cc); h != nil && p.InModule(h) && len(h.Blocks) > 0 && len(h.Blocks) < 12 {
+					for i, a := range cc.Call.Args {
+						if !fromDo(a) || i >= len(h.Params) {
+							continue
+						}
+						closes := false
+						core.Calls(h, func(hc ssa.CallInstruction) {
+							if hcal := core.Callee(hc); hcal != nil && hcal.Name() == "Close" {
+								if _, isDefer := hc.(*ssa.Defer); !isDefer || true {
+									for _, o := range core.Origins(core.CallArg(hc, 0), core.SliceOpts{}) {
+										if o.Kind == core.OParam && o.Param == h.Params[i] {
+											closes = true
+										}
+									}
+								}
+							}
+						})
+						if closes {
+							return true
+						}
 					}
 				}
 				return false
